@@ -335,7 +335,12 @@ var (
 )
 
 func vfShouldBindJSON(c *gin.Context, obj any) error {
-	obj.(*api.DeleteRequest).Model = vfDeleteName
+	switch r := obj.(type) {
+	case *api.DeleteRequest:
+		r.Model = vfDeleteName
+	case *api.CreateRequest:
+		*r = vfCreateReq
+	}
 	return nil
 }
 
